@@ -24,6 +24,13 @@ def repo_root() -> Path:
     return Path(os.environ.get("VERIF_REPO", "/repo"))
 
 
+def _alt() -> str:
+    """Runs against another tree than /repo (seeded-change trials through VERIF_REPO) keep their scratch files,
+    evidence and replay files apart, so that they never disturb or overwrite a run of the registered check."""
+    r = str(repo_root())
+    return "" if r == "/repo" else "__" + r.strip("/").replace("/", "_")
+
+
 def use_repo() -> None:
     """Make ``import mxlpy`` resolve to the working tree under test (first on sys.path)."""
     src = str(repo_root() / "src")
@@ -44,11 +51,13 @@ class Ctx:
         self.prop = prop
         self.tier = tier
         self.seed = seed
-        self.work = WORK / prop
+        self.work = WORK / (prop + _alt())
         if self.work.exists():
             shutil.rmtree(self.work, ignore_errors=True)
         self.work.mkdir(parents=True, exist_ok=True)
-        shutil.rmtree(REPLAYS / prop, ignore_errors=True)   # replay files of earlier runs are stale
+        self.replays = (REPLAYS / prop) if not _alt() else (WORK / ("replays" + _alt()) / prop)
+        self.evidence = (EVIDENCE / f"{prop}.json") if not _alt() else (WORK / ("evidence" + _alt()) / f"{prop}.json")
+        shutil.rmtree(self.replays, ignore_errors=True)   # replay files of earlier runs are stale
         self.t0 = time.time()
         self.quick = tier == "quick"
 
@@ -135,8 +144,7 @@ class Report:
     def finish(self) -> int:
         ctx = self.ctx
         wall = time.time() - ctx.t0
-        REPLAYS.mkdir(exist_ok=True)
-        rdir = REPLAYS / ctx.prop
+        rdir = ctx.replays
         lines = []
         for key, hit in sorted(self.known_hits.items()):
             f = self._known[key]
@@ -193,8 +201,8 @@ class Report:
             "wall_s": round(wall, 2),
             "violations": len(self.violations),
         }
-        EVIDENCE.mkdir(exist_ok=True)
-        (EVIDENCE / f"{ctx.prop}.json").write_text(json.dumps(ev, indent=1, default=str))
+        ctx.evidence.parent.mkdir(parents=True, exist_ok=True)
+        ctx.evidence.write_text(json.dumps(ev, indent=1, default=str))
         for ln in lines:
             print(ln)
         print(f"{ctx.prop} {ctx.tier}: states={self.states} transitions={self.transitions} replayed={self.replayed} "
